@@ -187,6 +187,38 @@ theorem interrupted_enter_loses_nothing (ops : List Op) (p : Proc) (moved : List
   simp only [step]
   split <;> rfl
 
+/-- **Death inside `__exit__`** (the block ended without an exception, the process dies while
+    `rmtree(jobs.bak)` is at work, having removed any subset `removed` of the backup's links): the run's
+    plan is complete — `jobs` holds exactly its links and it becomes the last completed plan — and what is
+    left of the backup is a subset of the previous index; the lock is free. -/
+theorem interrupted_exit (pre body : List Op) (p : Proc) (removed : List Link)
+    (hfree : (run pre init).lock = none) (hbody : ∀ op, op ∈ body → op.keeps p = true) :
+    let s0 := run pre init
+    let s' := run (pre ++ Op.enter p :: body ++ [Op.killedExiting p removed]) init
+    (∀ e, e ∈ s'.jobs ↔ (e.name ∈ submitted p body ∧ e.target = e.name)) ∧
+    (∃ b, s'.bak = some b ∧ ∀ e, e ∈ b ↔ ((e ∈ s0.jobs ∨ e ∈ bakList s0) ∧ e.name ∉ removed)) ∧
+    s'.lock = none ∧ s'.inside = [] ∧
+    (∀ n, n ∈ s'.plan ↔ n ∈ submitted p body) ∧ s'.aborted = [] ∧ s'.cur = [] := by
+  intro s0 s'
+  have h0 := inv_reach pre
+  obtain ⟨S, hrun, hinv, hl, hbak, _, _, _, hcur, hjobs⟩ := run_shape pre body p hfree hbody
+  have : s' = step S (Op.killedExiting p removed) := hrun _
+  rw [this, killedExiting_inside hinv hl]
+  refine ⟨hjobs, ⟨_, rfl, ?_⟩, rfl, rfl, hcur, rfl, rfl⟩
+  intro e
+  simp only [bakList, hbak, Option.getD_some, List.mem_filter, Bool.not_eq_eq_eq_not, Bool.not_true,
+    List.contains_eq_mem, decide_eq_false_iff_not]
+  constructor
+  · rintro ⟨he, hn⟩
+    refine ⟨?_, hn⟩
+    rcases mem_moveAll he with h | h
+    · exact Or.inr h
+    · exact Or.inl h
+  · rintro ⟨h | h, hn⟩
+    · exact ⟨mem_moveAll_of_jobs (fun x hx => h0.targeted x (by simp only [indexed, List.mem_append]; exact Or.inr hx))
+        (fun x hx => h0.targeted x (by simp only [indexed, List.mem_append]; exact Or.inl hx)) h, hn⟩
+    · exact ⟨mem_moveAll_of_bak h, hn⟩
+
 /-- every link of `jobs` and `jobs.bak` points to the directory of the job it is named after, and no name
     occurs twice in a folder, in every reachable state. -/
 theorem links_well_formed (ops : List Op) :
